@@ -59,6 +59,30 @@ M = [
     ("C09", "compiled-origin-zero", "dissect/cstruct/compiler.py", "        o = stream.tell()\n        \"\"\"", "        o = 0\n        \"\"\""),
     ("C07", "is-eof-no-restore", "dissect/cstruct/types/base.py", "    stream.seek(pos)\n    return False", "    return False"),
     ("C09", "reads-skips-first-byte", "dissect/cstruct/cstruct.py", "        return self.resolve(name).read(stream)", "        return self.resolve(name).read(stream[0:] if isinstance(stream, (bytes, bytearray)) else stream) if not isinstance(stream, memoryview) else self.resolve(name).read(bytes(stream)[:-1])"),
+    ("C05", "network-is-little", "dissect/cstruct/utils.py", '    "!": "big",', '    "!": "little",'),
+    ("C05", "compiled-binds-endian", "dissect/cstruct/compiler.py", "unpack = f'data = _struct(cls.cs.endian, \"{fmt}\").unpack(buf)\\n'", "unpack = f'data = _struct(\"{self.cs.endian}\", \"{fmt}\").unpack(buf)\\n'"),
+    ("C05", "leb-read-sign-bit", "dissect/cstruct/types/leb128.py", "        if cls.signed and b & 0x40 != 0:", "        if cls.signed and b & 0x20 != 0:"),
+    ("C05", "uint48-signed", "dissect/cstruct/cstruct.py", '"uint48": self._make_int_type("int48", 6, False, alignment=8)', '"uint48": self._make_int_type("int48", 6, True, alignment=8)'),
+    ("C05", "wchar-map-network", "dissect/cstruct/types/wchar.py", '        "!": "utf-16-be",', '        "!": "utf-16-le",'),
+    ("C05", "alias-u4-wrong", "dissect/cstruct/cstruct.py", '"u4": "uint32",', '"u4": "uint16",'),
+    ("C05", "bitbuffer-freezes-endian", "dissect/cstruct/compiler.py", 'preamble += "bit_reader = BitBuffer(stream, cls.cs.endian)\\n"', 'preamble += f"bit_reader = BitBuffer(stream, \\"{self.cs.endian}\\")\\n"'),
+    ("C05", "struct-cache-ignores-endian", "dissect/cstruct/types/packed.py", "        return stream.write(_struct(cls.cs.endian, cls.packchar).pack(data))", "        return stream.write(_struct(cls.__dict__.get('_e') or (setattr(cls, '_e', cls.cs.endian) or cls.cs.endian), cls.packchar).pack(data))"),
+    ("C12", "missing-masks-value", "dissect/cstruct/types/enum.py", "        new_member._name_ = None\n        new_member._value_ = value\n        return new_member", "        new_member._name_ = None\n        new_member._value_ = value & 0xFFFFFFFF\n        return new_member"),
+    ("C12", "enum-next-not-incremented", "dissect/cstruct/parser.py", "                else:\n                    nextval = val + 1\n\n                values[key] = val\n\n        if not d[\"type\"]:\n            d[\"type\"] = \"uint32\"\n\n        factory = self.cstruct._make_flag if", "                else:\n                    nextval = val + 2 if val == 5 else val + 1\n\n                values[key] = val\n\n        if not d[\"type\"]:\n            d[\"type\"] = \"uint32\"\n\n        factory = self.cstruct._make_flag if"),
+    ("C12", "flag-next-highbit", "dissect/cstruct/parser.py", "                if enumtype == \"flag\":\n                    high_bit = val.bit_length() - 1\n                    nextval = 2 ** (high_bit + 1)\n                else:\n                    nextval = val + 1\n\n                values[key] = val\n\n        if not d[\"type\"]:\n            d[\"type\"] = \"uint32\"\n\n        factory = self.cstruct._make_flag if", "                if enumtype == \"flag\":\n                    high_bit = val.bit_length() - 1\n                    nextval = 2 ** (high_bit + 1) if val & (val - 1) == 0 else 2 ** high_bit\n                else:\n                    nextval = val + 1\n\n                values[key] = val\n\n        if not d[\"type\"]:\n            d[\"type\"] = \"uint32\"\n\n        factory = self.cstruct._make_flag if"),
+    ("C12", "eq-drops-class-check", "dissect/cstruct/types/enum.py", "        if isinstance(other, Enum) and other.__class__ is not self.__class__:\n            return False", "        if False:\n            return False"),
+    ("C12", "hash-includes-id", "dissect/cstruct/types/enum.py", "        return hash((self.__class__, self.name, self.value))", "        return hash((self.__class__, self.name, self.value, id(self) if self.name is None else 0))"),
+    ("C12", "legacy-numbering", "dissect/cstruct/parser.py", "                    else:\n                        nextval = val + 1\n\n                    values[key] = val", "                    else:\n                        nextval = val + 1 if val else 2\n\n                    values[key] = val"),
+    ("C12", "enum-write-array-name", "dissect/cstruct/types/enum.py", "        data = [entry.value if isinstance(entry, _Enum) else entry for entry in array]\n        return cls.type._write_array(stream, data)", "        data = [(entry.value & 0x7FFF) if isinstance(entry, _Enum) else entry for entry in array]\n        return cls.type._write_array(stream, data)"),
+    ("C12", "flag-eq-int-only", "dissect/cstruct/types/flag.py", "        if isinstance(other, Flag) and other.__class__ is not self.__class__:\n            return False", "        if False:\n            return False"),
+    ("C19", "gap-after-7", "dissect/cstruct/utils.py", "            if j == 7:\n                values += \" \"", "            if j == 8:\n                values += \" \""),
+    ("C19", "printable-upper-dotted", "dissect/cstruct/utils.py", 'print_char = char if char in PRINTABLE else "."', 'print_char = char if char in PRINTABLE and char != "~" else "."'),
+    ("C19", "pack-wrong-order-for-bang", "dissect/cstruct/utils.py", "    return value.to_bytes(size, ENDIANNESS_MAP.get(endian, endian), signed=value < 0)", "    return value.to_bytes(size, ENDIANNESS_MAP.get(endian, endian) if endian != '!' or size < 3 else 'little', signed=value < 0)"),
+    ("C19", "swap-same-order", "dissect/cstruct/utils.py", '    return unpack(pack(value, size, ">"), size, "<")', '    return unpack(pack(value, size, ">"), size, "<") if size != 24 else unpack(pack(value, size, ">"), size, ">")'),
+    ("C19", "offset-not-running", "dissect/cstruct/utils.py", 'yield f"{prefix}{offset + i:08x}  {values:48s}  {chars}"', 'yield f"{prefix}{offset + (i if i < 48 else 48):08x}  {values:48s}  {chars}"'),
+    ("C19", "colour-eats-byte", "dissect/cstruct/utils.py", "                if active:\n                    values += f\"{ord(char):02x}\"", "                if active:\n                    values += f\"{ord(char) & 0x7f:02x}\""),
+    ("C19", "dumpstruct-skips-last", "dissect/cstruct/utils.py", "    for field in structure.__class__.__fields__:\n        if getattr", "    for field in structure.__class__.__fields__[: max(1, len(structure.__class__.__fields__) - (len(structure.__class__.__fields__) > 4))]:\n        if getattr"),
+    ("C19", "u16-ignores-endian", "dissect/cstruct/utils.py", "    return unpack(value, 16, endian, sign)", '    return unpack(value, 16, "little" if endian == "network" else endian, sign)'),
     ("C06", "be-mask-off", "dissect/cstruct/bitbuffer.py", "v >>= self._remaining - bits", "v >>= max(0, self._remaining - bits - (1 if bits == 7 else 0))"),
     ("C06", "writer-shift", "dissect/cstruct/bitbuffer.py", "self._buffer |= data << (self._type.size * 8 - self._remaining)", "self._buffer |= data << (self._type.size * 8 - self._remaining) if bits != 5 else data << bits"),
     ("C06", "straddle-lt", "dissect/cstruct/types/structure.py", "                if bits_remaining < 0:\n                    raise ValueError", "                if bits_remaining < -1:\n                    raise ValueError"),
